@@ -225,6 +225,19 @@ def wrappers(inner_name, mk_inner, quick):
         return None   # outside the inner space: behaviour not specified
       want, _ = inner_at(mapped)
       return None if close(got, want) else 'shifted point %r: got %s, inner at x - shift gives %s' % (point, got, want)
+    if restrict:
+      def rel(point, got, t, shift=shift, inner_rel=rel, memo={}):
+        # the restricted search space must be exactly the inner range moved by the shift and cut to the inner range
+        if 'space' not in memo:
+          memo['space'] = None
+          w = shifting_experimenter.ShiftingExperimenter(mk_inner(), np.asarray(shift, dtype=float) if isinstance(shift, list) else np.asarray(shift), should_restrict=True)
+          for i, pc in enumerate(params):
+            sft = shift[i] if isinstance(shift, list) else shift
+            wb = w.problem_statement().search_space.get(pc.name).bounds
+            want_b = (pc.bounds[0] + max(sft, 0.0), pc.bounds[1] + min(sft, 0.0))
+            if not all(math.isclose(a, b, rel_tol=1e-12, abs_tol=1e-12) for a, b in zip(wb, want_b)):
+              memo['space'] = 'restricted range of %s is %r, expected %r (inner range %r, shift %r)' % (pc.name, wb, want_b, pc.bounds, sft)
+        return memo['space'] or inner_rel(point, got, t)
     out.append(('shifting(%s,%s)' % (shift, restrict), lambda shift=shift, restrict=restrict: shifting_experimenter.ShiftingExperimenter(mk_inner(), np.asarray(shift, dtype=float) if isinstance(shift, list) else np.asarray(shift), should_restrict=restrict), rel, True))
 
   # sign flip (and involution)
@@ -289,7 +302,17 @@ def wrappers(inner_name, mk_inner, quick):
   out.append(('hashing-infeasible', lambda: infeasible_experimenter.HashingInfeasibleExperimenter(mk_inner(), infeasible_prob=0.5, seed=1), rel_i, True))
   num = [pc for pc in params if pc.type != vz.ParameterType.CATEGORICAL]
   if num:
-    out.append(('region-infeasible', lambda: infeasible_experimenter.ParamRegionInfeasibleExperimenter(mk_inner(), num[0].name, infeasible_interval=(0.0, 0.5)), rel_i, True))
+    def rel_region(point, got, t, pc=num[0]):
+      # independent statement of the documented rule: infeasible iff the parameter lies in the lower half of its (linear) range
+      if pc.scale_type in (None, vz.ScaleType.LINEAR):
+        vals = pc.bounds if pc.type in (vz.ParameterType.DOUBLE, vz.ParameterType.INTEGER) else (min(pc.feasible_values), max(pc.feasible_values))
+        if vals[1] > vals[0]:
+          pos = (float(point[pc.name]) - vals[0]) / (vals[1] - vals[0])
+          inner_infeasible = False if pos < 0.5 else inner_at(point)[1].infeasible
+          if abs(pos - 0.5) > 1e-4 and t.infeasible != (pos < 0.5 or inner_infeasible):
+            return 'point %r: %s at relative position %.4f of its range is reported infeasible=%s (infeasible interval [0, 0.5])' % (point, pc.name, pos, t.infeasible)
+      return rel_i(point, got, t)
+    out.append(('region-infeasible', lambda: infeasible_experimenter.ParamRegionInfeasibleExperimenter(mk_inner(), num[0].name, infeasible_interval=(0.0, 0.5)), rel_region, True))
 
   if len(objective) == 1:
     # switch between two copies
